@@ -1,7 +1,10 @@
 package rules
 
 import (
+	"go/constant"
 	"go/token"
+	"go/types"
+	"strconv"
 	"strings"
 
 	"gunyucheck/core"
@@ -67,6 +70,9 @@ func c17(w *core.World, r *core.Report) {
 
 	r.Rule("R17.4", "mode migration: seed (checkpoint ≺ mode-specific state ≺ mode marker) ≺ repoint index ≺ retire old index entry / old namespace", 2)
 	ruleMigrationOrder(w, r)
+
+	r.Rule("R17.7", "the recovery scan of a cluster target lists every slot 0..16383", 2)
+	ruleAllSlots(w, r)
 
 	r.Rule("R17.6", "an index entry is deleted only under a test that it is not the entry just written (old id != new id)", 2)
 	for _, name := range []string{"pkg/redis/checkpoint.UpdateCheckpoint", "(*syncer.syncer).resolveBisyncCheckpointNameWithClient"} {
@@ -628,4 +634,229 @@ func argmaxIdiom(f *ssa.Function, field string) (*ssa.Phi, map[*ssa.Phi]bool) {
 		}
 	}
 	return maxPhi, args
+}
+
+// ---------------------------------------------------------------- R17.7 the recovery scan covers every cluster slot
+
+// ruleAllSlots: on a cluster target the per-slot recovery state (latest
+// records, journals, old namespaces) is looked up slot by slot. The list of
+// slots to scan must be 0..16383 complete: a record that sits in a slot the
+// list omits is not found by the migration / the start-point search, the new
+// namespace is seeded from an older record and the old one deleted.
+func ruleAllSlots(w *core.World, r *core.Report) {
+	const nSlots = 16384
+	for _, name := range []string{"(*syncer.RedisOutput).bisyncRecoverySlots", "syncer.bisyncRecoverySlotsForConfig"} {
+		f := fn(w, r, name)
+		if f == nil {
+			continue
+		}
+		verdict, why := slotListCoverage(f, nSlots)
+		switch verdict {
+		case 1:
+			r.Check(true, shortName(name)+"/all-slots", f.Pos(), "")
+		case 0:
+			r.Check(false, shortName(name)+"/all-slots", f.Pos(), "the list of slots scanned for recovery state on a cluster target does not cover 0..16383 (%s): a record kept in an omitted slot is not found, the resume position falls back to an older record or to none", why)
+		default:
+			r.Undecided(shortName(name)+"/all-slots", f.Pos(), "slot list construction not recognised (%s)", why)
+		}
+	}
+}
+
+// slotListCoverage: 1 = f builds the list 0..n-1 completely, 0 = it visibly
+// builds less, -1 = construction not recognised.
+func slotListCoverage(f *ssa.Function, n int64) (int, string) {
+	isU16Slice := func(t types.Type) bool {
+		s, ok := t.Underlying().(*types.Slice)
+		if !ok {
+			return false
+		}
+		b, ok := s.Elem().Underlying().(*types.Basic)
+		return ok && b.Kind() == types.Uint16
+	}
+	verdict, why := -1, "no slot list found"
+	for _, in := range core.OwnInstrs(f) {
+		var v ssa.Value
+		var length int64 = -1
+		switch x := in.(type) {
+		case *ssa.MakeSlice:
+			if !isU16Slice(x.Type()) {
+				continue
+			}
+			v = x
+			if k, ok := core.ConstInt(x.Len); ok {
+				length = k
+			}
+		case *ssa.Slice:
+			al, ok := x.X.(*ssa.Alloc)
+			if !ok || !isU16Slice(x.Type()) {
+				continue
+			}
+			arr, ok := al.Type().Underlying().(*types.Pointer).Elem().Underlying().(*types.Array)
+			if !ok || arr.Len() < 2 {
+				continue // a literal such as []uint16{0}
+			}
+			v = x
+			length = arr.Len()
+			if x.High != nil {
+				if k, ok := core.ConstInt(x.High); ok {
+					length = k
+				} else {
+					length = -1
+				}
+			}
+		default:
+			continue
+		}
+		if length > 0 {
+			// filled in place: slots[i] = i for i in [0, len)
+			if length != n {
+				return 0, "the list has " + strconv.FormatInt(length, 10) + " entries"
+			}
+			filled := false
+			for _, in2 := range core.OwnInstrs(f) {
+				st, ok := in2.(*ssa.Store)
+				if !ok {
+					continue
+				}
+				ia, ok := st.Addr.(*ssa.IndexAddr)
+				if !ok || ia.X != v {
+					continue
+				}
+				if core.Unwrap(st.Val) != core.Unwrap(ia.Index) {
+					return 0, "entry i does not hold slot i"
+				}
+				from, bound, ok := indexRange(ia.Index)
+				if !ok {
+					return -1, "loop not recognised"
+				}
+				if from != 0 {
+					return 0, "the fill starts at " + strconv.FormatInt(from, 10)
+				}
+				if k, isK := core.ConstInt(bound); isK {
+					if k != n {
+						return 0, "the fill stops at " + strconv.FormatInt(k, 10)
+					}
+				} else if c, isC := core.Unwrap(bound).(*ssa.Call); !isC || !isBuiltin(c, "len") || c.Call.Args[0] != v {
+					return -1, "loop bound not recognised"
+				}
+				filled = true
+			}
+			if !filled {
+				return -1, "no fill loop"
+			}
+			verdict, why = 1, ""
+			continue
+		}
+		if length == 0 {
+			// grown by append: for c := 0; c < n; c++ { slots = append(slots, c) }
+			for _, ref := range *v.Referrers() {
+				ph, ok := ref.(*ssa.Phi)
+				if !ok {
+					continue
+				}
+				for _, e := range ph.Edges {
+					app, ok := e.(*ssa.Call)
+					if !ok || !isBuiltin(app, "append") || app.Call.Args[0] != ssa.Value(ph) {
+						continue
+					}
+					elems, ok := core.VariadicElems(app.Call.Args[1])
+					if !ok || len(elems) != 1 {
+						return -1, "append form not recognised"
+					}
+					from, bound, ok := indexRange(core.Unwrap(elems[0]))
+					if !ok {
+						return -1, "loop not recognised"
+					}
+					k, isK := core.ConstInt(bound)
+					if !isK {
+						return -1, "loop bound not constant"
+					}
+					if from != 0 || k != n {
+						return 0, "slots " + strconv.FormatInt(from, 10) + ".." + strconv.FormatInt(k-1, 10) + " are listed"
+					}
+					verdict, why = 1, ""
+				}
+			}
+		}
+	}
+	return verdict, why
+}
+
+func isBuiltin(c *ssa.Call, name string) bool {
+	b, ok := c.Call.Value.(*ssa.Builtin)
+	return ok && b.Name() == name
+}
+
+// indexRange: idx runs over from, from+1, … while idx < bound (exclusive):
+// `for i := from; i < bound; i++` (idx is the loop variable), `i <= last`
+// (bound = last+1 for a constant), or the index of `for i := range s`.
+func indexRange(idx ssa.Value) (from int64, bound ssa.Value, ok bool) {
+	idx = core.Unwrap(idx)
+	var ph *ssa.Phi
+	plusOne := false
+	switch x := idx.(type) {
+	case *ssa.Phi:
+		ph = x
+	case *ssa.BinOp:
+		// range form: index = phi + 1, phi starts at -1
+		p, isP := x.X.(*ssa.Phi)
+		if x.Op != token.ADD || !isP || !isConstInt(1)(x.Y) {
+			return 0, nil, false
+		}
+		ph, plusOne = p, true
+	default:
+		return 0, nil, false
+	}
+	if len(ph.Edges) != 2 {
+		return 0, nil, false
+	}
+	head := ph.Block()
+	var next ssa.Value
+	init := int64(0)
+	haveInit := false
+	for i, e := range ph.Edges {
+		if head.Dominates(head.Preds[i]) {
+			next = e
+		} else if k, isK := core.ConstInt(e); isK {
+			init, haveInit = k, true
+		}
+	}
+	if !haveInit || next == nil {
+		return 0, nil, false
+	}
+	nb, isB := next.(*ssa.BinOp)
+	if !isB || nb.Op != token.ADD || nb.X != ssa.Value(ph) || !isConstInt(1)(nb.Y) {
+		return 0, nil, false
+	}
+	// the test that keeps the loop going
+	var tested ssa.Value = ph
+	if plusOne {
+		tested = nb
+		if idx != ssa.Value(nb) {
+			return 0, nil, false
+		}
+		init++
+	}
+	for _, b := range []*ssa.BasicBlock{head, nb.Block()} {
+		if len(b.Instrs) == 0 {
+			continue
+		}
+		iff, isIf := b.Instrs[len(b.Instrs)-1].(*ssa.If)
+		if !isIf {
+			continue
+		}
+		c, isC := core.AsCmp(iff.Cond, true)
+		if !isC || core.Unwrap(c.X) != tested {
+			continue
+		}
+		switch c.Op {
+		case token.LSS:
+			return init, c.Y, true
+		case token.LEQ:
+			if k, isK := core.ConstInt(c.Y); isK {
+				return init, ssa.NewConst(constant.MakeInt64(k+1), c.Y.Type()), true
+			}
+		}
+	}
+	return 0, nil, false
 }
